@@ -88,3 +88,46 @@ func VerifH_C17_b_mem() {
 		}
 	}
 }
+
+// H-C17-d-mem: the backend owns what it was given. Callers reuse their key and value buffers (the stack trie
+// hands its hasher's scratch buffer to Put; rawdb writers reuse encoding buffers): a put — direct or through a
+// batch — must capture the bytes at the moment of the call, as leveldb and pebble do by serialising into their
+// own batch buffer. One put of an arbitrary non-empty value under an arbitrary key, directly or through a batch;
+// then the caller overwrites both of its buffers; then (for a batch) Write, or Replay into a fresh database:
+// the store holds the value that was issued under the key that was issued, and a buffer returned by Get is not
+// the store's own memory (writing into it does not change what the next Get returns).
+func VerifH_C17_d_mem() {
+	db := New(nil)
+	key := []byte{vU8("key")}
+	val := []byte{vU8("value0"), vU8("value1")}
+	k0, v0, v1 := key[0], val[0], val[1]
+	viaBatch := vBool("throughBatch")
+	replay := false
+	b := db.NewBatch()
+	if viaBatch {
+		vAssert("put/no-error", b.Put(key, val) == nil)
+		replay = vBool("replayedIntoAnotherDatabase")
+	} else {
+		vAssert("put/no-error", db.Put(key, val) == nil)
+	}
+	// the caller recycles its buffers
+	key[0] = k0 + 1
+	val[0], val[1] = v0+1, v1+1
+	target := db
+	if viaBatch {
+		if replay {
+			target = New(nil)
+			vAssert("replay/no-error", b.Replay(target) == nil)
+		} else {
+			vAssert("write/no-error", b.Write() == nil)
+		}
+	}
+	vReach("committed")
+	got, err := target.Get([]byte{k0})
+	vAssert("owned/value-issued-is-value-stored", err == nil && len(got) == 2 && got[0] == v0 && got[1] == v1)
+	other, _ := target.Has([]byte{k0 + 1})
+	vAssert("owned/key-issued-is-key-stored", !other)
+	got[0] = v0 + 7
+	again, err2 := target.Get([]byte{k0})
+	vAssert("owned/get-hands-out-a-copy", err2 == nil && len(again) == 2 && again[0] == v0)
+}
